@@ -143,7 +143,28 @@ func runC14(c *runCtx) {
 			rc := mustCache(s.repo)
 			rc.SetUserIdentity(mustIdentCache(rc, s.iden.Id()))
 			cfgBefore = gitConfigLocal(s.dir) // setting the user is the harness's doing, not the removal's
+			// the entity is loaded in this session, and the session goes on loading others afterwards
+			// (a small cache size makes the eviction pass look at every slot it knows)
+			// (the cache is reopened first: entities are then loaded on demand, through the LRU)
+			rc.Close()
+			rc = mustCache(s.repo)
+			rc.Bugs().SetCacheSize(2)
+			if _, err := rc.Bugs().Resolve(id); err != nil {
+				panic(err)
+			}
 			rmErr = rc.Bugs().Remove(string(id)[:10])
+			if p := recoverTo(func() {
+				for k := 0; k < 4; k++ {
+					if nb, _, err := rc.Bugs().New(fmt.Sprintf("created after the removal %d", k), "m"); err == nil {
+						rc.Bugs().Resolve(nb.Id())
+					}
+				}
+				for _, o := range s.others {
+					rc.Bugs().Resolve(o)
+				}
+			}); p != "" {
+				c.violation(c.nCases, "C14/cache-entry-left", "after a removal, loading other bugs in the same session crashes (a slot of the removed bug is still in the cache): "+p, nil)
+			}
 			// gone from the cache: by id, by prefix, by query, by search
 			if _, err := rc.Bugs().Resolve(id); err == nil {
 				c.violation(c.nCases, "C14/still-resolvable", "the removed bug can still be resolved by id through the cache", nil)
@@ -199,7 +220,24 @@ func runC14(c *runCtx) {
 		if rmErr != nil {
 			c.violation(c.nCases, "C14/remove-failed", fmt.Sprintf("removal via %s failed: %v", api, rmErr), nil)
 		}
-		after := allRefs(s.repo)
+		// (the bugs a cache session created after the removal are not the removal's doing)
+		known := map[string]bool{}
+		for _, ref := range before {
+			known[ref] = true
+		}
+		filt := func(l []string) []string {
+			if api != "cache" {
+				return l
+			}
+			kept := []string{}
+			for _, ref := range l {
+				if known[ref] || !strings.HasPrefix(ref, "refs/bugs/") {
+					kept = append(kept, ref)
+				}
+			}
+			return kept
+		}
+		after := filt(allRefs(s.repo))
 		cid := c.emit(map[string]any{"cmd": "remove", "refs": before, "ns": "bugs", "entity": string(id), "remotes": s.remotes, "api": api}, after)
 		c.count("api=" + api)
 		c.count(fmt.Sprintf("remotes=%d", k))
@@ -229,7 +267,7 @@ func runC14(c *runCtx) {
 		// repeating the removal does no further harm
 		again := bug.Remove(s.repo, id)
 		_ = again
-		if a2 := allRefs(s.repo); mustJSON(a2) != mustJSON(after) {
+		if a2 := filt(allRefs(s.repo)); mustJSON(a2) != mustJSON(after) {
 			c.violation(cid, "C14/not-idempotent", "repeating the removal changed refs again", nil)
 		}
 		// the neighbours read as before
@@ -242,6 +280,10 @@ func runC14(c *runCtx) {
 		cleanupScratch()
 	}
 	c14RemoteOnly(c)
+	for k := 0; k < c.pick(2, 8); k++ {
+		c14LateRemote(c, c.rng.fork(), k)
+		cleanupScratch()
+	}
 	if gb != "" {
 		c14Wipe(c, gb)
 	}
@@ -424,4 +466,57 @@ func c14Wipe(c *runCtx, gb string) {
 		}
 		cleanupScratch()
 	}
+}
+
+// c14LateRemote: a long-lived repository handle that has already listed its remotes; a remote is then
+// configured from outside (stock git), used by the session, and an entity is removed: its tracking ref
+// for that remote goes as well, and a merge without a new fetch does not bring it back.
+func c14LateRemote(c *runCtx, r *rng, k int) {
+	s := newC14Scene(r, k%2)
+	s.repo.GetRemotes()
+	rc := mustCache(s.repo)
+	rc.SetUserIdentity(mustIdentCache(rc, s.iden.Id()))
+	late, _ := newGoGit("c14late", true)
+	url := late.GetLocalRemote()
+	late.Close()
+	if out, err := exec.Command("git", "-C", s.dir, "remote", "add", "late", url).CombinedOutput(); err != nil {
+		panic(fmt.Sprintf("git remote add: %v %s", err, out))
+	}
+	c.context("remote configured by stock git while the handle is open, then push, fetch, removal")
+	if _, err := rc.Push("late"); err != nil {
+		panic(err)
+	}
+	if _, err := rc.Fetch("late"); err != nil {
+		panic(err)
+	}
+	id := s.target
+	tracking := "refs/remotes/late/bugs/" + string(id)
+	if ok, _ := s.repo.RefExist(tracking); !ok {
+		panic("the tracking ref of the late remote was not created: " + tracking)
+	}
+	useCache := k%2 == 0
+	var err error
+	if useCache {
+		err = rc.Bugs().Remove(string(id))
+	} else {
+		err = bug.Remove(s.repo, id)
+	}
+	c.count(fmt.Sprintf("late-remote/cache=%v", useCache))
+	if err != nil {
+		c.violation(-1, "C14/remove-failed", "removal with a remote configured during the session failed: "+err.Error(), nil)
+	}
+	for _, ref := range allRefs(s.repo) {
+		if strings.HasSuffix(ref, "/"+string(id)) {
+			c.violation(-1, "C14/refs", fmt.Sprintf("after the removal the ref %s is left (the remote was configured by stock git after the handle had listed its remotes)", ref), nil)
+		}
+	}
+	if useCache {
+		for range rc.MergeAll("late") {
+		}
+		if _, err := rc.Bugs().Resolve(id); err == nil {
+			c.violation(-1, "C14/back-after-merge", "the removed bug is back after a merge without a new fetch (remote configured during the session)", nil)
+		}
+	}
+	rc.Close()
+	s.repo.Close()
 }
